@@ -32,6 +32,7 @@ func init() {
 }
 
 func runC01(w *World, r *Report) {
+	ruleNodeFresh(w, r)
 	ruleErrID(w, r)
 	ruleErrChk(w, r)
 	// an error found non-nil is never turned into success on the way out (parser, compiler, EvalBool, …)
@@ -739,6 +740,24 @@ func fastRewriteGate(w *World, k nodeKinds, st *ssa.Store) (bool, string) {
 	if !lenOK {
 		return false, "the rewrite to fastOperator is not gated by exactly two children (the evaluator inlines exactly nodes[i+1], nodes[i+2])"
 	}
+	// and/or stay on the short-circuit path: the fast arm fetches both operands and applies the operator to both, so
+	// `(and x y)` with x false would type-check (and fail on) a y that left-to-right evaluation never looks at
+	notBool, notAnd, notOr := false, false, false
+	for _, f := range facts {
+		if c, ok := f.Cond.(*ssa.Call); ok && !f.Truth && c.Call.StaticCallee() != nil && len(c.Call.Args) == 1 {
+			switch nm(c.Call.StaticCallee()) {
+			case "isBoolOpNode":
+				notBool = true
+			case "isAndOpNode":
+				notAnd = true
+			case "isOrOpNode":
+				notOr = true
+			}
+		}
+	}
+	if !notBool && !(notAnd && notOr) {
+		return false, "the rewrite to fastOperator also applies to and/or: the fast arm applies the operator to both operands, so a two-leaf and/or fails on a wrongly typed second operand that short-circuit evaluation never examines (the value then depends on whether FastEvaluation is enabled)"
+	}
 	// the loop over children: every back edge to the header carries kind(child) in {constant, variable}
 	fn := st.Parent()
 	loopOK := false
@@ -984,6 +1003,12 @@ var c01Witnesses = append(append(append(stepWitnessesEval, tableWitnesses...), b
 		{File: "parser.go", Old: "		ast, err = fn()\n		if ast != nil || err != nil {\n			return ast, err\n		}", New: "		ast, err = fn()\n		if err != nil {\n			return ast, err\n		}"}}},
 	{Name: "fast-rewrite-for-three-children", Rule: "R-KIND", Edits: []Edit{
 		{File: "compiler.go", Old: "	if (n.flag&nodeTypeMask) != operator || len(root.children) != 2 {", New: "	if (n.flag&nodeTypeMask) != operator || len(root.children) < 2 {"}}},
+	{Name: "fast-rewrite-also-for-and-or", Rule: "R-KIND", Doc: "revert of the D16 repair", Edits: []Edit{
+		{File: "compiler.go", Old: "	if isBoolOpNode(n) {\n		return\n	}\n\n	for _, child := range root.children {\n		typ := child.node.getNodeType()", New: "	for _, child := range root.children {\n		typ := child.node.getNodeType()"}}},
+	{Name: "fast-rewrite-excludes-only-and", Rule: "R-KIND", Edits: []Edit{
+		{File: "compiler.go", Old: "	if isBoolOpNode(n) {\n		return\n	}\n\n	for _, child := range root.children {\n		typ := child.node.getNodeType()", New: "	if isAndOpNode(n) {\n		return\n	}\n\n	for _, child := range root.children {\n		typ := child.node.getNodeType()"}}},
+	{Name: "benign-fast-rewrite-excludes-and-or-separately", Benign: true, Edits: []Edit{
+		{File: "compiler.go", Old: "	if isBoolOpNode(n) {\n		return\n	}\n\n	for _, child := range root.children {\n		typ := child.node.getNodeType()", New: "	if isAndOpNode(n) || isOrOpNode(n) {\n		return\n	}\n\n	for _, child := range root.children {\n		typ := child.node.getNodeType()"}}},
 	{Name: "fast-rewrite-allows-operator-child", Rule: "R-KIND", Edits: []Edit{
 		{File: "compiler.go", Old: "		typ := child.node.getNodeType()\n		if typ == constant || typ == variable {\n			continue\n		}\n		return", New: "		typ := child.node.getNodeType()\n		if typ == constant || typ == variable || len(child.children) == 0 {\n			continue\n		}\n		return"}}},
 	{Name: "variable-node-with-key-as-value", Rule: "R-KIND", Edits: []Edit{
